@@ -51,8 +51,14 @@ fn main() {
                 g("--to"),
                 g("--stride").max(1),
                 mem_cap,
+                g("--log-outcomes") == 1,
             );
             0
+        }
+        "determinism" => {
+            let prop = args.get(1).cloned().unwrap_or_default();
+            let runs = arg_val(&args, "--runs").and_then(|s| s.parse().ok()).unwrap_or(2000);
+            driver::determinism(&prop, driver::default_seed(), runs)
         }
         "replay" => driver::replay(&args.get(1).cloned().unwrap_or_default(), mem_cap),
         "replay-inner" => driver::replay_inner(&args.get(1).cloned().unwrap_or_default(), mem_cap),
